@@ -190,9 +190,20 @@ def run_search(repo: Repo, res: Result) -> None:
                     # 'edge' requirements are judged per subject/object pair: an import into the sub-tree of an object belongs to
                     # the answer for that object - for every object whose sub-tree holds the target, not for one of them
                     kvar, nmap, how = S.filed_under(m, e)
+                    each = S.each_object(m, e) if nmap is None else None
                     n += 1
                     key = repo.key(fi, stmt_of(e.call)) + " [every pair gets its imports]"
-                    if nmap is not None and how == "lookup" and nmap.single:
+                    if each is not None:
+                        # `for o in objects: if neighbour in sub_tree[o]: result[o].append(..)`: every object is asked - as long as the loop is not left
+                        kvar, each_sets, each_loop = each
+                        how = "each"
+                        leaves = [x for b in each_loop.body for x in ast.walk(b) if isinstance(x, (ast.Break, ast.Return))]
+                        if leaves:
+                            res.add("C01.S", key, False, f"the loop over the objects `{norm(each_loop.iter)}` is left (`{norm(leaves[0])}`) once the import is filed under one of them: an object that comes later and whose sub-tree holds `{e.nvar}` as well (a package and one of its sub packages named in the same rule) never gets this import", where(fi, leaves[0]), kind="dominance")
+                        else:
+                            res.add("C01.S", key, True, f"every object of `{obj_param}` is asked whether its sub-tree holds `{e.nvar}`", where(fi, e.call), kind="dominance")
+                        obj_sets = obj_sets + [x for x in each_sets if x not in obj_sets]
+                    elif nmap is not None and how == "lookup" and nmap.single:
                         res.add(
                             "C01.S", key, False,
                             f"the import is filed under the one object `{norm(e.key) if kvar is None else kvar} = {nmap.var}[{e.nvar}]`, and `{norm(nmap.store)}` keeps one object per node: when the sub-trees of two objects of "
@@ -319,6 +330,9 @@ def _same_object(m: S.SearchModel, setvar: str, ev: S.Event, kvar: str) -> bool:
     return all(cfg.dominates(kst, c) for c in chain if c is not None) and cfg.dominates(d, stmt_of(ev.call))
 
 
+_NAME_TEST = re.compile(r"\.(startswith|endswith|removeprefix|removesuffix|rpartition|partition|rsplit|split|find|rfind|count)\(")
+
+
 def _implies_for_some(premise: Formula, conclusion: Formula, free: list[str]) -> bool:
     """premise -> (exists free atoms. conclusion), by enumeration."""
     from core.guards import assignments, evaluate
@@ -370,7 +384,10 @@ def _exempt_sets_exact(repo: Repo, res: Result, m: S.SearchModel, subj: str, own
         for node, kind, elts in _set_mutations(m, name):
             st = stmt_of(node)
             if any((stmt_of(site.call) is st or any(f is st for f in site.fills)) and site.target == name for site in m.subtree_sites):
-                continue  # the sub-tree lookup that fills the set
+                # the sub-tree lookup that fills the set - unless the same statement puts more in / takes something out
+                extra_ops = [x for e in elts for site in m.subtree_sites if kind == "bind" and S._is_base_of(site.call, e) for x in S._addends(e, site.call) + S._subtrahends(e) if not S._is_empty_collection(x)]
+                if not extra_ops:
+                    continue
             if kind == "bind" and all(S._is_empty_collection(e) for e in elts):
                 continue
             ops = [op for op in m.set_ops if op.node is node]
@@ -380,9 +397,12 @@ def _exempt_sets_exact(repo: Repo, res: Result, m: S.SearchModel, subj: str, own
                 # a set computed from the sub-tree set itself (`S = S - E`, `S = get_all_submodules_of(..) - E`): what is taken out is E
                 based = any(isinstance(x, ast.Name) and x.id == name for e in elts for x in ast.walk(S.strip(e))) or any(S._is_base_of(site.call, e) for site in m.subtree_sites for e in elts)
                 subs = [x for e in elts for x in S._subtrahends(e) if not S._is_empty_collection(x)]
-                if based and not subs:
+                adds = [x for e in elts for site in m.subtree_sites if S._is_base_of(site.call, e) for x in S._addends(e, site.call) if not S._is_empty_collection(x)]
+                if based and not subs and not adds:
                     continue
-                if based:
+                if based and adds:
+                    kind, elts = "grow", adds  # `S = get_all_submodules_of(..) | E`
+                elif based:
                     kind, elts = "shrink", subs
             n += 1
             key = repo.key(fi, st) + " [exempt set]"
@@ -437,7 +457,15 @@ def _exempt_sets_exact(repo: Repo, res: Result, m: S.SearchModel, subj: str, own
         extra = sorted(a for a in atoms_of(recorded) if a not in known and a not in free)
         sets = [a[len(it.var) + 4:] for a in extra if a.startswith(f"{it.var} in ")]
         culprit = next((x for x in sets if x.isidentifier() and x not in m.visited_sets and S.names_only(S.provenance(m, ast.Name(id=x, ctx=ast.Load())))), None)
-        if culprit is not None:
+        name_test = next((a for a in extra if _NAME_TEST.search(a)), None)
+        if culprit is None and name_test is not None:
+            res.add(
+                "C01.S", key, False,
+                f"whether an import edge to a node outside the subject's sub-tree `{own[0]}` and outside the objects `{exc[0]}` is recorded also depends on the name test `{name_test}` on the other end: "
+                f"modules are exempted from 'something else' by how they are called, not by being inside the subject or a named object",
+                where(fi, evs[0].call), kind="dominance",
+            )
+        elif culprit is not None:
             res.add(
                 "C01.S", key, False,
                 f"an import edge to a node outside the subject's sub-tree `{own[0]}` and outside the objects `{exc[0]}` is still not recorded when the node is in `{culprit}`, a set computed from module names alone: "
